@@ -1,5 +1,6 @@
 /* rculfhash scenario: real src/rculfhash.c (order allocator, size-2 table, no resize) under the controlled scheduler.
-   usage: scen_lfht PROG SCHED ; ops: A<i> add entry i, U<i> add_unique entry i, L<i> lookup (hash,key) of entry i, X del the node found by the last lookup */
+   usage: scen_lfht PROG SCHED ; ops: A<i> add entry i, U<i> add_unique entry i, L<i> lookup (hash,key) of entry i, X del the node found by the last lookup,
+   P<i> cds_lfht_replace of the node found by the last lookup (through the iterator that lookup left) by entry i */
 #define _LGPL_SOURCE
 #include <stdbool.h>
 #include <string.h>
@@ -20,12 +21,13 @@ static struct ent E[NE]; static struct cds_lfht *ht;
 static int match(struct cds_lfht_node *n, const void *k){ return ((struct ent*)n)->key==*(const int*)k; }
 #define MAXTH 6
 static char *prog[MAXTH]; static int nprog;
-static void body(int t){ struct cds_lfht_node *found=0;
+static void body(int t){ struct cds_lfht_node *found=0; struct cds_lfht_iter it; it.node=0; it.next=0;
   for(char *p=prog[t]; *p; p++){
 	int i = p[1]-'0';
 	if(*p=='A'){ p++; vs_call("add",(unsigned long)&E[i]); cds_lfht_add(ht, EH[i], &E[i].n); vs_ret("add",(unsigned long)&E[i]); }
 	else if(*p=='U'){ p++; vs_call("add",(unsigned long)&E[i]); struct cds_lfht_node *r=cds_lfht_add_unique(ht, EH[i], match, &E[i].key, &E[i].n); vs_ret("add",(unsigned long)r); }
-	else if(*p=='L'){ p++; int k=EK[i]; struct cds_lfht_iter it; vs_call("lookup",k); cds_lfht_lookup(ht,EH[i],match,&k,&it); found=cds_lfht_iter_get_node(&it); vs_ret("lookup",(unsigned long)found); }
+	else if(*p=='L'){ p++; int k=EK[i]; vs_call("lookup",k); cds_lfht_lookup(ht,EH[i],match,&k,&it); found=cds_lfht_iter_get_node(&it); vs_ret("lookup",(unsigned long)found); }
+	else if(*p=='P'){ p++; vs_call("replace",(unsigned long)it.node); int r=cds_lfht_replace(ht,&it,EH[i],match,&E[i].key,&E[i].n); vs_ret("replace",(unsigned long)(r==0?0:r==-ENOENT?2:3)); }
 	else if(*p=='X'){ vs_call("del",(unsigned long)found); int r=cds_lfht_del(ht,found); vs_ret("del",r); } } }
 int main(int argc,char**argv){
   static char obuf[1<<20]; setvbuf(stdout,obuf,_IOFBF,sizeof obuf);
